@@ -210,6 +210,18 @@ func readInts(p string) []int {
 
 func alive(pid int) bool { return pid > 0 && syscall.Kill(pid, 0) == nil }
 
+// zombie reports whether the process has exited but was not reaped yet (state Z)
+func zombie(pid int) bool {
+	b, err := os.ReadFile(fmt.Sprintf("/proc/%d/stat", pid))
+	if err != nil {
+		return false
+	}
+	s := string(b)
+	i := strings.LastIndexByte(s, ')')
+	f := strings.Fields(s[i+1:])
+	return len(f) > 0 && f[0] == "Z"
+}
+
 func ppidOf(pid int) int {
 	b, err := os.ReadFile(fmt.Sprintf("/proc/%d/stat", pid))
 	if err != nil {
@@ -321,7 +333,18 @@ func replay(work string, idx int, pl launchPlan, predicted map[bool]bool) (viol 
 	<-callerDone
 	obs["launch_pid"], obs["launch_err"], obs["daemon_pid"], obs["launcher_pid"] = r.Pid, r.Err, daemonPid, launcherPid
 	doneHappened := fileExists(filepath.Join(dir, "daemon.done-calling"))
-	daemonAlive := alive(daemonPid)
+	// the daemon goes on with its life: it writes a log line to its standard error once the launcher
+	// is gone. Wait until it has done so - or has died.
+	if r.Err == "" {
+		dl := time.Now().Add(stepTimeout)
+		for time.Now().Before(dl) && !fileExists(filepath.Join(dir, "daemon.logged")) && alive(daemonPid) && !zombie(daemonPid) {
+			time.Sleep(2 * time.Millisecond)
+		}
+		if !fileExists(filepath.Join(dir, "daemon.logged")) && (!alive(daemonPid) || zombie(daemonPid)) {
+			return fmt.Sprintf("the daemon died when it wrote to its standard error after Launch had returned and the launcher was gone: it does not keep running (pid %d)", daemonPid), "", obs
+		}
+	}
+	daemonAlive := alive(daemonPid) && !zombie(daemonPid)
 	realOK := r.Err == "" && r.Pid != 0
 	obs["real_ok"], obs["model_allows_ok"], obs["model_allows_failure"] = realOK, predicted[true], predicted[false]
 	switch {
@@ -409,6 +432,58 @@ func replaySameProcess(work string) (viol string, infra string, obs map[string]a
 		case x.err == "<nil>" && !alive(pids[i]):
 			return fmt.Sprintf("two overlapping Launch calls in one process: the %s daemon is not running after Launch returned", which), "", obs
 		}
+	}
+	return "", "", obs
+}
+
+// replayFailedThenHealthy: one caller process makes a Launch that legitimately fails (its
+// daemon exits before Done()) and then a healthy one; state left over by the first must not
+// spoil the second.
+func replayFailedThenHealthy(work string) (viol string, infra string, obs map[string]any) {
+	dirBad := filepath.Join(work, fmt.Sprintf("bad-%d", time.Now().UnixNano()))
+	dirGood := filepath.Join(work, fmt.Sprintf("good-%d", time.Now().UnixNano()))
+	os.MkdirAll(dirBad, 0o755)
+	os.MkdirAll(dirGood, 0o755)
+	obs = map[string]any{}
+	cmd := exec.Command(*procBin, "caller3", dirBad, dirGood)
+	if err := cmd.Start(); err != nil {
+		return "", "cannot start the caller: " + err.Error(), obs
+	}
+	done := make(chan struct{})
+	go func() { cmd.Wait(); close(done) }()
+	pid := 0
+	defer func() {
+		os.WriteFile(filepath.Join(dirGood, "daemon.stop"), nil, 0o644)
+		if pid > 0 {
+			syscall.Kill(pid, syscall.SIGKILL)
+		}
+		select {
+		case <-done:
+		case <-time.After(5 * time.Second):
+			cmd.Process.Kill()
+		}
+	}()
+	if !waitFile(filepath.Join(dirGood, "result3.json")) {
+		return "", "the two Launch calls did not return within the step timeout", obs
+	}
+	if ids := readInts(filepath.Join(dirGood, "daemon.started")); len(ids) == 2 {
+		pid = ids[0]
+	}
+	var r struct {
+		PidBad, Pid int
+		ErrBad, Err string
+	}
+	if err := json.Unmarshal(must(os.ReadFile(filepath.Join(dirGood, "result3.json"))), &r); err != nil {
+		return "", "bad result3.json", obs
+	}
+	<-done
+	obs["failing_launch"], obs["healthy_launch"], obs["daemon_pid"] = fmt.Sprintf("(%d, %s)", r.PidBad, r.ErrBad), fmt.Sprintf("(%d, %s)", r.Pid, r.Err), pid
+	doneCalled := fileExists(filepath.Join(dirGood, "daemon.done-calling"))
+	switch {
+	case r.Err != "<nil>" && doneCalled && alive(pid):
+		return fmt.Sprintf("after a Launch that failed, the next Launch in the same process returned (%d, %q) although its daemon called Done() and keeps running (pid %d)", r.Pid, r.Err, pid), "", obs
+	case r.Err == "<nil>" && r.Pid != pid:
+		return fmt.Sprintf("after a Launch that failed, the next Launch returned pid %d, its daemon has pid %d", r.Pid, pid), "", obs
 	}
 	return "", "", obs
 }
@@ -583,6 +658,17 @@ func main() {
 		}
 		if v != "" {
 			viols = append(viols, vcommon.Violation{Scenario: "2 launches overlapping in one process", Fingerprint: "same-process|" + firstWords(v, 12),
+				Message: "C20: " + v + fmt.Sprintf(" [observed %v]", obs), Witness: map[string]any{"observed": obs}})
+		}
+	}
+	for rep := 0; rep < reps; rep++ {
+		v, infra, obs := replayFailedThenHealthy(work)
+		replays += 2
+		if infra != "" {
+			vcommon.Infra("failed then healthy Launch in one process: %s (%v)", infra, obs)
+		}
+		if v != "" {
+			viols = append(viols, vcommon.Violation{Scenario: "a failed Launch followed by a healthy one in one process", Fingerprint: "failed-then-healthy|" + firstWords(v, 12),
 				Message: "C20: " + v + fmt.Sprintf(" [observed %v]", obs), Witness: map[string]any{"observed": obs}})
 		}
 	}
